@@ -254,14 +254,16 @@ Proof.
 Qed.
 
 (* ------------------------------------------------------------------ well-formed collection builder *)
-Record wfc (c : coll) : Prop := {
+Record wfc0 (c : coll) : Prop := {
   wf_sum : c_used c + c_free c = c_size c;
   wf_used : c_used c = 16 + total_of (c_objs c);
   wf_idx : objs_from 1 (c_objs c);
   wf_next : c_next c = 1 + N.of_nat (length (c_objs c));
   wf_cnt : c_next c < 65536;
-  wf_lim : c_size c < W64;
   wf_mod : c_size c mod 8 = 0 }.
+
+(* ... whose size fits the 8-byte size field (true for every collection of a file below 2^64 bytes) *)
+Definition wfc (c : coll) : Prop := wfc0 c /\ c_size c < W64.
 
 Definition tail_zeros (c : coll) : N := if 16 <=? c_free c then c_free c - 16 else c_free c.
 
@@ -274,11 +276,11 @@ Proof.
   unfold blen at 1 2 3. cbn [length sig_gcol]. lia.
 Qed.
 
-Lemma encode_wfc : forall c, wfc c ->
+Lemma encode_wfc0 : forall c, wfc0 c ->
   encode_collection c = Some (coll_content c ++ zeros (tail_zeros c))
   /\ blen (coll_content c ++ zeros (tail_zeros c)) = c_size c.
 Proof.
-  intros c [Hs Hu _ _ _ _ _]. unfold encode_collection.
+  intros c [Hs Hu _ _ _ _]. unfold encode_collection.
   pose proof (blen_content c) as Hb. rewrite blen_enc_free in Hb.
   assert (Hz : c_size c - blen (coll_content c) = tail_zeros c).
   { unfold tail_zeros. destruct (16 <=? c_free c) eqn:E; lia. }
@@ -286,6 +288,11 @@ Proof.
   destruct (blen (coll_content c) <=? c_size c) eqn:E; [|lia].
   rewrite Hz. split; [reflexivity|]. rewrite blen_app, blen_zeros. lia.
 Qed.
+
+Lemma encode_wfc : forall c, wfc c ->
+  encode_collection c = Some (coll_content c ++ zeros (tail_zeros c))
+  /\ blen (coll_content c ++ zeros (tail_zeros c)) = c_size c.
+Proof. intros c [H _]. now apply encode_wfc0. Qed.
 
 (* shape of the encoded collection: 16-byte header, then objects, free marker, zeros *)
 Lemma content_shape : forall c,
@@ -307,7 +314,7 @@ Lemma wfc_bounds : forall c, wfc c ->
   c_free c < W64 /\ total_of (c_objs c) < W64 /\ 16 <= c_size c
   /\ 16 * N.of_nat (length (c_objs c)) <= c_size c.
 Proof.
-  intros c [Hs Hu _ _ _ Hl _]. pose proof (total_of_count (c_objs c)). lia.
+  intros c [[Hs Hu _ _ _ _] Hl]. pose proof (total_of_count (c_objs c)). lia.
 Qed.
 
 (* ReadGlobalHeapCollection's object loop on the encoded collection returns the builder's objects *)
@@ -316,7 +323,7 @@ Lemma parse_encoded : forall c, wfc c ->
              (skipn 16 (coll_content c ++ zeros (tail_zeros c))) = Ok (c_objs c).
 Proof.
   intros c Hw. pose proof (wfc_bounds c Hw) as (Hf & Ht & Hsz & Hcnt).
-  destruct Hw as [Hs Hu Hi Hn Hc Hl Hm].
+  destruct Hw as [[Hs Hu Hi Hn Hc Hm] Hl].
   rewrite content_shape.
   destruct (hdr16 (c_size c) (flat_map enc_obj (c_objs c) ++ enc_free c ++ zeros (tail_zeros c)))
     as (_ & _ & _ & _ & F16 & _ & _).
@@ -375,7 +382,7 @@ Proof.
   assert (Hb : b = coll_content c ++ zeros (tail_zeros c)) by congruence. subst b. clear He.
   pose proof (wfc_bounds c Hw) as (_ & _ & Hsz & _).
   pose proof (parse_encoded c Hw) as Hp.
-  pose proof (wf_lim c Hw) as Hl.
+  pose proof (proj2 Hw) as Hl.
   unfold read_collection.
   rewrite (read_at_in d lim (c_addr c) _ 16 Hd Hin) by lia.
   revert Hp Hin Hlen. rewrite content_shape.
@@ -480,7 +487,7 @@ Proof.
   destruct (encode_wfc c Hw) as (He' & Hlen).
   assert (Hb : b = coll_content c ++ zeros (tail_zeros c)) by congruence. subst b. clear He.
   pose proof (wfc_bounds c Hw) as (Hfree & Ht & Hsz & Hcnt).
-  destruct Hw as [Hs Hu Hi Hn Hc Hl Hm].
+  destruct Hw as [[Hs Hu Hi Hn Hc Hm] Hl].
   revert Hlen. rewrite content_shape.
   set (R := flat_map enc_obj (c_objs c) ++ enc_free c ++ zeros (tail_zeros c)).
   intros Hlen.
@@ -501,3 +508,396 @@ Proof.
   - assert (N.of_nat (length (c_objs c)) <= c_size c / 16) by (apply N.div_le_lower_bound; lia).
     lia.
 Qed.
+
+(* ------------------------------------------------------------------ references *)
+Lemma parse_encode_reference : forall id, h_addr id < W64 -> h_idx id < 4294967296 ->
+  parse_reference (encode_reference id) = Ok id.
+Proof.
+  intros [a i] Ha Hi. cbn [h_addr h_idx] in *. unfold parse_reference, encode_reference.
+  cbn [h_addr h_idx].
+  assert (HL : blen (le 8 a ++ le 4 i ++ [0; 0; 0; 0]) = 16).
+  { rewrite !blen_app, !blen_le. reflexivity. }
+  rewrite HL. change (16 <? 12) with false. cbv iota.
+  rewrite slice_0 by (now rewrite blen_le).
+  rewrite (slice_app_at (le 8 a) (le 4 i) [0; 0; 0; 0]) by (now rewrite blen_le).
+  rewrite !unle_le by (cbn; unfold W64 in *; lia). reflexivity.
+Qed.
+
+(* ------------------------------------------------------------------ the writer as a state machine *)
+Section Machine.
+Variables minsz blk : N.
+
+Definition params_ok : Prop :=
+  0 < blk /\ blk mod 8 = 0 /\ minsz mod 8 = 0 /\ minsz + blk <= 1048000.
+Hypothesis Hp : params_ok.
+
+(* 16 * nextIndex + freeSpace stays below this bound after the first object of a collection:
+   this is what keeps the uint16 object index from wrapping *)
+Definition K : N := minsz + blk + 48.
+Definition slack (c : coll) : Prop := 16 * c_next c + c_free c <= K.
+
+Lemma new_size_props : forall tot, tot mod 8 = 0 ->
+  let sz := new_size minsz blk tot in
+  16 + tot + 16 <= sz /\ sz mod 8 = 0 /\ sz < tot + 32 + minsz + blk.
+Proof.
+  intros tot Ht. destruct Hp as (Hb & Hb8 & Hm8 & Hsum). unfold new_size. cbv zeta.
+  destruct (minsz <? 16 + tot + 16) eqn:E.
+  - set (needed := 16 + tot + 16) in *.
+    set (q := (needed + (blk - 1)) / blk).
+    assert (Hq : needed + (blk - 1) = blk * q + (needed + (blk - 1)) mod blk) by (apply N.div_mod; lia).
+    pose proof (N.mod_lt (needed + (blk - 1)) blk ltac:(lia)).
+    assert (Hmod : (q * blk) mod 8 = 0).
+    { apply N.mod_divide; [lia|]. apply N.divide_mul_r. apply N.mod_divide; [lia | exact Hb8]. }
+    repeat split; [nia | exact Hmod | nia].
+  - repeat split; lia.
+Qed.
+
+Lemma add_object_wfc0 : forall c d, wfc0 c -> c_next c + 1 < 65536 -> obj_total (blen d) <= c_free c ->
+  wfc0 (fst (add_object c d)).
+Proof.
+  intros c d [Hs Hu Hi Hn Hc Hm] Hnx Hsp. unfold add_object. cbn [fst].
+  assert (Hw : wrap16 (c_next c + 1) = c_next c + 1) by (unfold wrap16; apply N.mod_small; lia).
+  constructor; cbn [c_used c_free c_size c_objs c_next].
+  - lia.
+  - rewrite total_of_app. cbn [total_of o_data]. lia.
+  - apply objs_from_app. split; [exact Hi|]. cbn [objs_from o_index o_ref]. repeat split; lia.
+  - rewrite Hw, app_length. cbn [length]. lia.
+  - rewrite Hw. exact Hnx.
+  - exact Hm.
+Qed.
+
+Definition cur_ok (st : gstate) (c : coll) : Prop :=
+  wfc0 c /\ slack c /\ c_addr c + c_size c <= eof st.
+
+(* an issued heap id points at the written bytes: in the open collection, or in a closed collection
+   whose encoding is on disk *)
+Definition in_cur (st : gstate) (id : heapid) (d : bytes) : Prop :=
+  exists c, cur st = Some c /\ c_addr c = h_addr id /\ In (mkobj (h_idx id) 1 d) (c_objs c).
+Definition on_disk (dk : list (N * bytes)) (id : heapid) (d : bytes) : Prop :=
+  exists c b, wfc0 c /\ c_addr c = h_addr id /\ encode_collection c = Some b
+              /\ In (c_addr c, b) dk /\ In (mkobj (h_idx id) 1 d) (c_objs c).
+Definition holds (st : gstate) (id : heapid) (d : bytes) : Prop :=
+  in_cur st id d \/ on_disk (disk st) id d.
+
+Definition closed_ok (dk : list (N * bytes)) : Prop :=
+  forall a b, In (a, b) dk -> exists c, wfc0 c /\ c_addr c = a /\ encode_collection c = Some b.
+
+Record Inv (st : gstate) : Prop := {
+  inv_disk : disk_ok (disk st) (match cur st with Some c => c_addr c | None => eof st end);
+  inv_cur : forall c, cur st = Some c -> cur_ok st c;
+  inv_closed : closed_ok (disk st) }.
+
+Lemma Inv_init : forall e0, Inv (mkst None e0 []).
+Proof.
+  intros. constructor; cbn [cur disk eof disk_ok]; auto.
+  - intros c H. discriminate.
+  - intros a b [].
+Qed.
+
+Lemma Inv_alloc : forall st n, Inv st -> Inv (mkst (cur st) (eof st + n) (disk st)).
+Proof.
+  intros st n [Hd Hc Hcl]. constructor; cbn [cur disk eof]; auto.
+  - destruct (cur st); [exact Hd|]. eapply disk_ok_mono; [exact Hd | lia].
+  - intros c Hcur. destruct (Hc c Hcur) as (A & B & C). unfold cur_ok. cbn [eof]. split; [exact A | split; [exact B | lia]].
+Qed.
+
+Lemma holds_alloc : forall st n id d, holds st id d -> holds (mkst (cur st) (eof st + n) (disk st)) id d.
+Proof. intros st n id d H. exact H. Qed.
+
+(* first object of a fresh collection *)
+Lemma first_object : forall a d,
+  let tot := obj_total (blen d) in
+  let sz := new_size minsz blk tot in
+  let c1 := fst (add_object (mkcoll a sz [] 1 16 (sz - 16)) d) in
+  wfc0 c1 /\ slack c1 /\ c_addr c1 = a /\ c_size c1 = sz
+  /\ c_objs c1 = [mkobj 1 1 d] /\ snd (add_object (mkcoll a sz [] 1 16 (sz - 16)) d) = 1.
+Proof.
+  intros a d tot sz c1.
+  pose proof (obj_total_ge (blen d)) as (T1 & T2 & T3). fold tot in T1, T2, T3.
+  pose proof (new_size_props tot T3) as (S1 & S2 & S3). fold sz in S1, S2, S3.
+  assert (W0 : wfc0 (mkcoll a sz [] 1 16 (sz - 16))).
+  { constructor; cbn [c_used c_free c_size c_objs c_next total_of objs_from length]; auto; lia. }
+  refine (conj _ (conj _ (conj eq_refl (conj eq_refl (conj eq_refl eq_refl))))).
+  - apply add_object_wfc0; cbn [c_next c_free]; auto; fold tot; lia.
+  - unfold c1, slack, add_object, K. cbn [fst c_next c_free]. fold tot.
+    unfold wrap16. change ((1 + 1) mod 65536) with 2. lia.
+Qed.
+
+Lemma disk_ok_cons_closed : forall dk c b lim, disk_ok dk (c_addr c) -> wfc0 c ->
+  encode_collection c = Some b -> c_addr c + c_size c <= lim -> disk_ok ((c_addr c, b) :: dk) lim.
+Proof.
+  intros dk c b lim Hd Hw He Hl. cbn [disk_ok].
+  destruct (encode_wfc0 c Hw) as (He' & Hlen).
+  assert (b = coll_content c ++ zeros (tail_zeros c)) by congruence. subst b.
+  destruct Hw as [Hs Hu _ _ _ _]. refine (conj _ (conj _ Hd)); lia.
+Qed.
+
+Lemma write_obj_inv : forall st d, Inv st ->
+  exists st' id, write_obj minsz blk st d = Some (st', id) /\ Inv st' /\ holds st' id d
+    /\ (forall id0 d0, holds st id0 d0 -> holds st' id0 d0) /\ eof st <= eof st'.
+Proof.
+  intros st d [Hd Hc Hcl]. unfold write_obj.
+  set (tot := obj_total (blen d)).
+  pose proof (obj_total_ge (blen d)) as (T1 & T2 & T3). fold tot in T1, T2, T3.
+  destruct (cur st) as [c|] eqn:Ecur.
+  - destruct (Hc c eq_refl) as (Hw & Hsl & Hlim).
+    unfold has_space. destruct (tot <=? c_free c) eqn:Esp; cbn [negb].
+    + (* room in the open collection *)
+      rewrite Ecur.
+      destruct (add_object c d) as [c' i] eqn:Eadd.
+      assert (Hc' : c' = fst (add_object c d)) by now rewrite Eadd.
+      assert (Hi : i = c_next c) by (unfold add_object in Eadd; now inversion Eadd).
+      assert (Hnx : c_next c + 1 < 65536).
+      { unfold slack, K in Hsl. destruct Hp as (_ & _ & _ & Hsum). lia. }
+      assert (Hw' : wfc0 c') by (subst c'; apply add_object_wfc0; auto; fold tot; lia).
+      assert (Ha : c_addr c' = c_addr c) by (subst c'; reflexivity).
+      assert (Hs : c_size c' = c_size c) by (subst c'; reflexivity).
+      assert (Ho : c_objs c' = c_objs c ++ [mkobj (c_next c) 1 d]) by (subst c'; reflexivity).
+      exists (mkst (Some c') (eof st) (disk st)), (mkid (c_addr c') i).
+      split; [reflexivity|]. split; [|split; [|split]].
+      * constructor; cbn [cur disk eof].
+        -- now rewrite Ha.
+        -- intros c0 E. inversion E; subst c0. unfold cur_ok. cbn [eof]. refine (conj Hw' (conj _ _)).
+           ++ unfold slack in *. subst c'. unfold add_object. cbn [fst c_next c_free]. fold tot.
+              unfold wrap16. rewrite N.mod_small by lia. lia.
+           ++ lia.
+        -- exact Hcl.
+      * left. exists c'. cbn [cur h_addr h_idx]. repeat split; auto.
+        rewrite Ho, Hi. apply in_or_app. right. now left.
+      * intros id0 d0 [(c0 & E0 & A0 & I0) | H0].
+        -- left. rewrite Ecur in E0. inversion E0; subst c0.
+           exists c'. cbn [cur]. repeat split; auto; [congruence|].
+           rewrite Ho. apply in_or_app. now left.
+        -- right. exact H0.
+      * cbn [eof]. lia.
+    + (* roll-over: flush the open collection, start a new one *)
+      unfold flush. rewrite Ecur.
+      destruct (encode_wfc0 c Hw) as (He & Hlen). rewrite He.
+      unfold create_heap. cbn [cur eof disk]. fold tot.
+      set (sz := new_size minsz blk tot).
+      destruct (first_object (eof st) d) as (F1 & F2 & F3 & F4 & F5 & F6).
+      fold tot in F1, F2, F3, F4, F5, F6. fold sz in F1, F2, F3, F4, F5, F6.
+      destruct (add_object (mkcoll (eof st) sz [] 1 16 (sz - 16)) d) as [c' i] eqn:Eadd.
+      cbn [fst snd] in *. subst i.
+      exists (mkst (Some c') (eof st + sz) ((c_addr c, coll_content c ++ zeros (tail_zeros c)) :: disk st)),
+             (mkid (c_addr c') 1).
+      split; [reflexivity|]. split; [|split; [|split]].
+      * constructor; cbn [cur disk eof].
+        -- rewrite F3. eapply disk_ok_cons_closed; eauto.
+        -- intros c0 E. inversion E; subst c0. unfold cur_ok. cbn [eof]. refine (conj F1 (conj F2 _)). lia.
+        -- intros a b [E | Hin].
+           ++ inversion E; subst a b. exists c. auto.
+           ++ apply Hcl. exact Hin.
+      * left. exists c'. cbn [cur h_addr h_idx]. repeat split; auto. rewrite F5. now left.
+      * intros id0 d0 [(c0 & E0 & A0 & I0) | (c0 & b0 & H0)].
+        -- right. rewrite Ecur in E0. inversion E0; subst c0.
+           exists c, (coll_content c ++ zeros (tail_zeros c)). cbn [disk].
+           exact (conj Hw (conj A0 (conj He (conj (or_introl eq_refl) I0)))).
+        -- right. exists c0, b0. cbn [disk]. destruct H0 as (H1 & H2 & H3 & H4 & H5).
+           exact (conj H1 (conj H2 (conj H3 (conj (or_intror H4) H5)))).
+      * cbn [eof]. lia.
+  - (* no collection yet *)
+    cbn [flush]. unfold flush. rewrite Ecur.
+    unfold create_heap. cbn [cur eof disk]. fold tot.
+    set (sz := new_size minsz blk tot).
+    destruct (first_object (eof st) d) as (F1 & F2 & F3 & F4 & F5 & F6).
+    fold tot in F1, F2, F3, F4, F5, F6. fold sz in F1, F2, F3, F4, F5, F6.
+    destruct (add_object (mkcoll (eof st) sz [] 1 16 (sz - 16)) d) as [c' i] eqn:Eadd.
+    cbn [fst snd] in *. subst i.
+    exists (mkst (Some c') (eof st + sz) (disk st)), (mkid (c_addr c') 1).
+    split; [reflexivity|]. split; [|split; [|split]].
+    * constructor; cbn [cur disk eof].
+      -- now rewrite F3.
+      -- intros c0 E. inversion E; subst c0. unfold cur_ok. cbn [eof]. refine (conj F1 (conj F2 _)). lia.
+      -- exact Hcl.
+    * left. exists c'. cbn [cur h_addr h_idx]. repeat split; auto. rewrite F5. now left.
+    * intros id0 d0 [(c0 & E0 & A0 & I0) | H0]; [congruence | right; exact H0].
+    * cbn [eof]. lia.
+Qed.
+
+Lemma run_inv : forall ops st, Inv st ->
+  exists st' ids, run minsz blk st ops = Some (st', ids) /\ Inv st' /\ eof st <= eof st'
+    /\ length ids = length (writes ops)
+    /\ (forall id0 d0, holds st id0 d0 -> holds st' id0 d0)
+    /\ (forall i d, nth_error (writes ops) i = Some d ->
+          exists id, nth_error ids i = Some id /\ holds st' id d).
+Proof.
+  induction ops as [|o r IH]; intros st HI.
+  - exists st, []. cbn [run writes length].
+    split; [reflexivity|]. split; [exact HI|]. split; [lia|]. split; [reflexivity|]. split; [auto|].
+    intros i d H. destruct i; discriminate.
+  - destruct o as [d | n].
+    + destruct (write_obj_inv st d HI) as (st1 & id & Hw & HI1 & Hh & Hpres & Heof).
+      destruct (IH st1 HI1) as (st2 & ids & Hr & HI2 & Heof2 & Hlen & Hpres2 & Hnth).
+      exists st2, (id :: ids). cbn [run writes length]. rewrite Hw, Hr.
+      split; [reflexivity|]. split; [exact HI2|]. split; [lia|]. split; [now rewrite Hlen|].
+      split; [auto|].
+      intros i d0 H. destruct i as [|i]; cbn [nth_error] in *.
+      * inversion H; subst d0. exists id. split; auto.
+      * apply Hnth. exact H.
+    + destruct (IH _ (Inv_alloc st n HI)) as (st2 & ids & Hr & HI2 & Heof2 & Hlen & Hpres2 & Hnth).
+      exists st2, ids. cbn [run writes]. rewrite Hr. cbn [eof] in Heof2.
+      split; [reflexivity|]. split; [exact HI2|]. split; [lia|]. split; [exact Hlen|].
+      split; [|exact Hnth].
+      intros id0 d0 H. apply Hpres2. exact H.
+Qed.
+
+(* Close: Flush writes the open collection; from then on everything issued is on disk *)
+Lemma flush_final : forall st, Inv st ->
+  exists fin, flush st = Some fin /\ eof fin = eof st /\ disk_ok (disk fin) (eof st)
+    /\ closed_ok (disk fin) /\ (forall id d, holds st id d -> on_disk (disk fin) id d).
+Proof.
+  intros st [Hd Hc Hcl]. unfold flush.
+  destruct (cur st) as [c|] eqn:Ecur.
+  - destruct (Hc c eq_refl) as (Hw & Hsl & Hlim).
+    destruct (encode_wfc0 c Hw) as (He & Hlen). rewrite He.
+    eexists. split; [reflexivity|]. cbn [eof disk]. split; [reflexivity|]. split; [|split].
+    + eapply disk_ok_cons_closed; eauto.
+    + intros a b [E | Hin]; [inversion E; subst a b; exists c; auto | now apply Hcl].
+    + intros id d [(c0 & E0 & A0 & I0) | (c0 & b0 & H1 & H2 & H3 & H4 & H5)].
+      * assert (c0 = c) by congruence. subst c0.
+        exists c, (coll_content c ++ zeros (tail_zeros c)).
+        exact (conj Hw (conj A0 (conj He (conj (or_introl eq_refl) I0)))).
+      * exists c0, b0. exact (conj H1 (conj H2 (conj H3 (conj (or_intror H4) H5)))).
+  - exists st. split; [reflexivity|]. split; [reflexivity|]. split; [exact Hd|]. split; [exact Hcl|].
+    intros id d [(c0 & E0 & _) | H]; [congruence | exact H].
+Qed.
+End Machine.
+
+(* ------------------------------------------------------------------ reading back *)
+Lemma resolve_on_disk : forall dk lim id d, disk_ok dk lim -> lim < W64 -> on_disk dk id d ->
+  resolve dk (encode_reference id) = Ok d.
+Proof.
+  intros dk lim id d Hd Hlim (c & b & Hw & Ha & He & Hin & Ho).
+  destruct (disk_ok_in _ _ _ _ Hd Hin) as (Hb1 & Hb2).
+  destruct (encode_wfc0 c Hw) as (He' & Hlen).
+  assert (Hb : blen b = c_size c) by congruence.
+  assert (Hwc : wfc c) by (split; [exact Hw | lia]).
+  pose proof (objs_from_in _ _ _ (wf_idx c Hw) Ho) as (I1 & I2 & _). cbn [o_index] in I1, I2.
+  pose proof (wf_next c Hw) as Hn. pose proof (wf_cnt c Hw) as Hc.
+  unfold resolve. rewrite parse_encode_reference by lia.
+  rewrite <- Ha. rewrite (read_collection_encoded dk lim c b Hd Hwc He Hin). cbn [r_objs].
+  pose proof (get_object_in _ _ _ (wf_idx c Hw) Ho) as Hg. cbn [o_index] in Hg.
+  rewrite Hg. reflexivity.
+Qed.
+
+Lemma wf_on_disk : forall dk lim, disk_ok dk lim -> lim < W64 -> closed_ok dk ->
+  forall a b, In (a, b) dk -> wf_gcol 16 b = true.
+Proof.
+  intros dk lim Hd Hlim Hcl a b Hin.
+  destruct (Hcl a b Hin) as (c & Hw & Ha & He).
+  destruct (disk_ok_in _ _ _ _ Hd Hin) as (Hb1 & Hb2).
+  destruct (encode_wfc0 c Hw) as (He' & Hlen).
+  assert (Hb : blen b = c_size c) by congruence.
+  apply (wf_gcol_encoded c b); [split; [exact Hw | lia] | exact He].
+Qed.
+
+(* ------------------------------------------------------------------ the property *)
+(* never a Go run-time failure, whatever is written *)
+Lemma C12_total_lemma : forall minsz blk e0 ops, params_ok minsz blk ->
+  exists fin ids, run_close minsz blk e0 ops = Some (fin, ids).
+Proof.
+  intros minsz blk e0 ops Hp. unfold run_close.
+  destruct (run_inv minsz blk Hp ops _ (Inv_init minsz blk e0)) as (st & ids & Hr & HI & _).
+  rewrite Hr. destruct (flush_final minsz blk st HI) as (fin & Hf & _). rewrite Hf. eauto.
+Qed.
+
+Lemma C12_roundtrip_lemma : forall minsz blk e0 ops fin ids, params_ok minsz blk ->
+  run_close minsz blk e0 ops = Some (fin, ids) -> eof fin < W64 ->
+  length ids = length (writes ops) /\
+  forall i d, nth_error (writes ops) i = Some d ->
+    exists id, nth_error ids i = Some id /\ resolve (disk fin) (encode_reference id) = Ok d.
+Proof.
+  intros minsz blk e0 ops fin ids Hp Hrun Hlim. unfold run_close in Hrun.
+  destruct (run_inv minsz blk Hp ops _ (Inv_init minsz blk e0)) as (st & ids' & Hr & HI & _ & Hlen & _ & Hnth).
+  rewrite Hr in Hrun.
+  destruct (flush_final minsz blk st HI) as (fin' & Hf & Heof & Hd & Hcl & Hon). rewrite Hf in Hrun.
+  inversion Hrun; subst fin' ids'. split; [exact Hlen|].
+  intros i d Hi. destruct (Hnth i d Hi) as (id & Hid & Hh). exists id. split; [exact Hid|].
+  apply (resolve_on_disk (disk fin) (eof st)); auto. lia.
+Qed.
+
+Lemma C12_wellformed_lemma : forall minsz blk e0 ops fin ids, params_ok minsz blk ->
+  run_close minsz blk e0 ops = Some (fin, ids) -> eof fin < W64 ->
+  forall a b, In (a, b) (disk fin) -> wf_gcol 16 b = true.
+Proof.
+  intros minsz blk e0 ops fin ids Hp Hrun Hlim. unfold run_close in Hrun.
+  destruct (run_inv minsz blk Hp ops _ (Inv_init minsz blk e0)) as (st & ids' & Hr & HI & _).
+  rewrite Hr in Hrun.
+  destruct (flush_final minsz blk st HI) as (fin' & Hf & Heof & Hd & Hcl & Hon). rewrite Hf in Hrun.
+  inversion Hrun; subst fin' ids'.
+  apply (wf_on_disk (disk fin) (eof st)); auto. lia.
+Qed.
+
+(* every issued object index is a genuine uint16 other than 0 (0 is the free-space marker):
+   the 16-bit counter cannot wrap, because a collection never holds more than (minsz+blk+48)/16
+   objects (params_ok bounds that by 65535; with the shipped 4096/4096 it is 514) *)
+Lemma C12_index_lemma : forall minsz blk e0 ops fin ids, params_ok minsz blk ->
+  run_close minsz blk e0 ops = Some (fin, ids) ->
+  forall i id, nth_error ids i = Some id -> 1 <= h_idx id /\ h_idx id < 65536.
+Proof.
+  intros minsz blk e0 ops fin ids Hp Hrun i id Hi. unfold run_close in Hrun.
+  destruct (run_inv minsz blk Hp ops _ (Inv_init minsz blk e0)) as (st & ids' & Hr & HI & _ & Hlen & _ & Hnth).
+  rewrite Hr in Hrun.
+  destruct (flush_final minsz blk st HI) as (fin' & Hf & Heof & Hd & Hcl & Hon). rewrite Hf in Hrun.
+  inversion Hrun; subst fin' ids'.
+  assert (Hlt : (i < length (writes ops))%nat).
+  { rewrite <- Hlen. apply nth_error_Some. congruence. }
+  destruct (nth_error (writes ops) i) as [d|] eqn:Ed; [|apply nth_error_None in Ed; lia].
+  destruct (Hnth i d Ed) as (id' & Hid' & Hh).
+  assert (id' = id) by congruence. subst id'.
+  destruct (Hon id d Hh) as (c & b & Hw & _ & _ & _ & Ho).
+  pose proof (objs_from_in _ _ _ (wf_idx c Hw) Ho) as (I1 & I2 & _). cbn [o_index] in I1, I2.
+  pose proof (wf_next c Hw). pose proof (wf_cnt c Hw). lia.
+Qed.
+
+(* ------------------------------------------------------------------ variable-length datatype message *)
+Definition is_vstring (b : vbase) : bool := match b with VString => true | _ => false end.
+
+(* repaired encoder: the reader sees class 9, size 16, the sequence/string flag, and the base type
+   message as the properties; the base type parses to the class/size/sign the writer registered *)
+Lemma C12_vlen_dt_lemma : forall b, exists m base bprops,
+  enc_vlen b = Ok m /\ enc_base b = Ok base
+  /\ parse_datatype m = Ok (mkdt 9 1 16 (vl_bits b) base)
+  /\ parse_datatype base = Ok (mkdt (fst (fst (base_cls b))) 1 (snd (fst (base_cls b))) (snd (base_cls b)) bprops)
+  /\ is_variable_string (mkdt 9 1 16 (vl_bits b) base) = is_vstring b
+  /\ vlen_recognised b m = true.
+Proof.
+  destruct b; vm_compute; do 3 eexists; repeat split; reflexivity.
+Qed.
+
+(* encoder of the pinned tree (finding D10): every vlen message parses as class 0 (fixed point) *)
+Lemma C12_vlen_dt_old_lemma : forall b, exists m d,
+  enc_vlen_old b = Ok m /\ parse_datatype m = Ok d /\ d_class d = 0 /\ d_version d = 9
+  /\ vlen_recognised b m = false.
+Proof.
+  destruct b; vm_compute; do 2 eexists; repeat split; reflexivity.
+Qed.
+
+(* ------------------------------------------------------------------ non-vacuity *)
+Definition ex_ops : list op :=
+  [W []; W (repeat 7 (N.to_nat 4032)); W [1; 2; 3]; A 100; W []; W (repeat 171 (N.to_nat 70000));
+   W (unhex "00ff00e4bda0e5a5bd00")].
+
+(* a history with an element filling a collection exactly, a roll-over, a foreign allocation, an
+   element larger than a collection and embedded NULs: 3 collections at the expected addresses, all
+   references resolve, all collections are well-formed; they are NOT well-formed under the HDF5
+   library's free-space size convention (D16), and a collection that is 8 bytes longer than its
+   declared size is rejected.  (Stated as one boolean so that vm_compute never has to print the
+   70 KiB collections.) *)
+Definition ex_check : bool :=
+  match run_close 4096 4096 2048 ex_ops with
+  | None => false
+  | Some (fin, ids) =>
+      list_eqb (fun x y => (fst x =? fst y) && (snd x =? snd y))
+               (map (fun e => (fst e, blen (snd e))) (disk fin)) [(10340, 73728); (6144, 4096); (2048, 4096)]
+      && list_eqb (fun x y => (h_addr x =? h_addr y) && (h_idx x =? h_idx y)) ids
+           [mkid 2048 1; mkid 2048 2; mkid 6144 1; mkid 6144 2; mkid 10340 1; mkid 10340 2]
+      && all_resolve (disk fin) ids (writes ex_ops)
+      && forallb (fun e => wf_gcol 16 (snd e)) (disk fin)
+      && negb (existsb (fun e => wf_gcol 0 (snd e)) (disk fin))
+      && negb (existsb (fun e => wf_gcol 16 (snd e ++ [0; 0; 0; 0; 0; 0; 0; 0])) (disk fin))
+  end.
+
+Lemma C12_example_lemma : ex_check = true.
+Proof. vm_compute. reflexivity. Qed.
